@@ -94,18 +94,31 @@ def step (_ : Unit) (ts : List String) : Unit × String :=
   | "man" :: _ => ((), judgeLoadLine .manifest out)
   | "mans" :: _ => ((), judgeLoadLine .manifest out)
   | "arcmans" :: _ => if out.head? = some "skip" then ((), "ok") else ((), judgeLoadLine .manifest out)
+  | "edge" :: _ => if out = ["identical"] ∨ out = ["not-dangling"] then ((), "ok") else ((), judgeLoadLine .semantic out)
+  | "arcedge" :: _ => if out = ["identical"] ∨ out = ["not-dangling"] ∨ out.head? = some "skip" then ((), "ok") else ((), judgeLoadLine .semantic out)
+  | "dupnode" :: _ => if out = ["identical"] then ((), "ok") else ((), judgeLoadLine .semantic out)
+  | ["uarc", mode, pre, _, _, alter] =>
+    if out = ["identical"] ∨ out.head? = some "skip" then ((), "ok") else
+    match parseUnpackObs out with
+    | some o =>
+      let c : UnpackCase := { staged := mode.startsWith "staged", force := mode.endsWith "force", preFull := pre = "full", explicit := [] }
+      match judgeHostileArchive (alter ≠ "none") c o with
+      | none => ((), "ok")
+      | some cls => ((), s!"reject {cls} api={mode} new={o.newFiles}")
+    | none => ((), "reject bad-output " ++ " ".intercalate out)
   | "arc" :: _ => ((), judgeLoadLine .archive out)
   | "arckey" :: _ => ((), judgeLoadLine .key out)
   | ["tar", mode, pre, spec] => ((), judgeTarLine mode pre spec out)
   | "path" :: _ => ((), "ok")      -- corpus lines of the sibling suites (shared corpus glob), judged there
   | "frames" :: _ => ((), "ok")
   | "clean" :: _ => ((), "ok")
+  | "canon" :: _ => ((), "ok")
   | "join" :: _ => ((), "ok")
   | _ => ((), "reject bad-op " ++ " ".intercalate op)
 
 def stepPath (_ : Unit) (ts : List String) : Unit × String :=
   let (op, out) := splitArrow ts
-  if op.head? = some "clean" ∨ op.head? = some "join" then ((), "ok") else   -- model-compared only
+  if op.head? = some "clean" ∨ op.head? = some "join" ∨ op.head? = some "canon" then ((), "ok") else   -- model-compared only
   if op.head? ≠ some "path" then ((), "reject bad-op") else
   match out with
   | ["err", _] => ((), "ok")
